@@ -80,12 +80,17 @@ FRAGMENTS = {
               b'{3} PRINT#1,"line";LOC(2);LOF(2)'],
     'data': [b'{0} RESTORE {5}:READ D1,D2$:PRINT D1;D2$;', b'{1} READ D3:PRINT D3;:RESTORE {6}:READ D4$:PRINT D4$;',
              b'{5} DATA 11,"x,y"', b'{6} DATA 22,zz'],
+    # text access to the record buffer of a random file (INPUT# reads ahead one character)
+    'rndtext': [b'{0} OPEN "RT.DAT" FOR RANDOM AS 3 LEN=32', b'{1} PRINT#3,12;34;"ab,cd":PUT#3,1',
+                b'{2} GET#3,1:INPUT#3,U:INPUT#3,V:INPUT#3,U$:PRINT U;V;U$;',
+                b'{3} GET#3,1:INPUT#3,U:PRINT#3,"Q";:PUT#3,2:GET#3,2:LINE INPUT#3,V$:PRINT V$;:CLOSE 3'],
+    'append': [b'{0} PRINT#1,"pre":CLOSE 1:OPEN "SEQ.TXT" FOR APPEND AS 1', b'{1} PRINT#1,"app1"', b'{2} PRINT#1,"app2";LOF(1)'],
     'deffn': [b'{0} DEF FNA(X)=X*2+Y', b'{1} Y=5:PRINT FNA(3);:Y=FNA(Y):PRINT Y;'],
 }
 FRAG_NAMES = sorted(FRAGMENTS)
 
 VARS = ['A%', 'B%', 'C!', 'D1!', 'D2$', 'D3!', 'D4$', 'E%', 'I!', 'J%', 'K!', 'L$', 'N!', 'Q!', 'R%', 'S$', 'T$',
-        'W!', 'X!', 'Y!', 'F$', 'G$']
+        'W!', 'X!', 'Y!', 'F$', 'G$', 'U!', 'V!', 'U$', 'V$']
 
 
 def build(frags):
@@ -302,10 +307,10 @@ def legs(ctx):
         # every fragment alone + every fragment preceded by 'gosub' and followed by 'error'
         progs = singles + [('gosub', n) for n in FRAG_NAMES if n != 'gosub'] + \
             [(n, 'error') for n in FRAG_NAMES if n != 'error']
-        bound = 'programs: %d (12 single fragments + 22 pairs); every statement boundary' % len(progs)
+        bound = 'programs: %d (%d single fragments + pairs with gosub / error); every statement boundary' % (len(progs), len(singles))
     else:
         progs = singles + pairs + [('gosub', 'error', 'files'), ('on', 'strings', 'data'), ('for', 'while', 'goto')]
-        bound = 'programs: %d (12 singles + all 132 ordered pairs + 3 triples); every statement boundary' % len(progs)
+        bound = 'programs: %d (%d singles + all %d ordered pairs + 3 triples); every statement boundary' % (len(progs), len(singles), len(pairs))
     out = [Leg('boundaries', list(chunked(progs, 1)), work_boundaries, exhaustive=True, bound=bound)]
     shards = []
     for which in range(3):
